@@ -61,6 +61,7 @@ func ClearTimeout(timer *Timer) {
 
 func (t *Timer) Stop() {
 	if t.timer.Stop() {
+		VerifYield("timer.stop.window", t)
 		t.stopCh <- struct{}{}
 	}
 }
@@ -75,6 +76,7 @@ func SetInterval(fn func(), sleep time.Duration) *Timer {
 		for {
 			select {
 			case <-timer.timer.C:
+				VerifYield("timer.interval.tick", timer)
 				timer.timer.Reset(timer.sleep)
 				go fn()
 			case <-timer.stopCh:
